@@ -1,11 +1,14 @@
 ---------------------------- MODULE Trace_Output ----------------------------
 (***************************************************************************)
-(* Validation of runs of the real output chain recorded by                 *)
-(* lenaverif/outlib.py.  Trace is a sequence of histories                  *)
-(*   [np, set, runs]      runs = sequence of                               *)
+(* Validation of runs of the real output chain (plain and grouped)         *)
+(* recorded by lenaverif/outlib.py.  Trace is a sequence of histories      *)
+(*   [srcs, obj, set, runs]      runs = sequence of                        *)
 (*   [touched = [del, data, tpl], exc, stray, obs]                         *)
-(*   obs[p] = [files = [csv, tex, pdf, png], wrote = [csv, tex],           *)
-(*             launched = [pdf, png], ch, path_ok, nvals]                  *)
+(*   obs[p] = [files = [csv (one per source), tex, pdf, png],              *)
+(*             wrote = [csv (one per source), tex], launched = [pdf, png], *)
+(*             ch, path_ok, nvals]                                         *)
+(* touched.del holds <<p, kind, m>> (m = 0 for tex / pdf / png),           *)
+(* touched.data <<p, m>>.                                                  *)
 (* The state is what the real run left behind (observed files) and the     *)
 (* current versions; every run is judged by the predicates of OutputRef    *)
 (* against the state before it.  A failed predicate is reported as         *)
@@ -18,16 +21,18 @@ Trace == JsonDeserialize(IOEnv.TRACE_FILE)
 VARIABLES hi, j, dataVer, tplVer, files
 tvars == <<hi, j, dataVer, tplVer, files>>
 H == Trace[hi]
-KS == {"csv", "tex", "pdf", "png"}
+NP == Len(H.srcs)
 TInit == /\ hi \in 1..Len(Trace) /\ j = 1
-         /\ dataVer = [p \in 1..Trace[hi].np |-> 1] /\ tplVer = 1
-         /\ files = [p \in 1..Trace[hi].np |-> [k \in KS |-> Absent]]
+         /\ dataVer = [p \in 1..Len(Trace[hi].srcs) |-> [m \in 1..Trace[hi].srcs[p] |-> 1]] /\ tplVer = 1
+         /\ files = [p \in 1..Len(Trace[hi].srcs) |->
+                       [csv |-> [m \in 1..Trace[hi].srcs[p] |-> Absent], tex |-> Absent, pdf |-> Absent, png |-> Absent]]
 Count(s, x) == Cardinality({i \in 1..Len(s) : s[i] = x})
+Gone(e, p, k, m, f) == IF Count(e.touched.del, <<p, k, m>>) > 0 THEN Absent ELSE f
 Report(name, p, cond) == IF cond THEN TRUE ELSE PrintT(<<"BAD", hi, j, name, p>>)
 NoOverwrite(s) == s.m1 # "overwrite" /\ s.m2 # "overwrite" /\ ~s.lo /\ ~s.po
 Judge(e, dv, tv, pre) ==
   /\ Report("RunRaised", 0, e.exc = "")
-  /\ \A p \in 1..H.np : LET o == e.obs[p]  cur == Current(tv, dv[p]) IN
+  /\ \A p \in 1..NP : LET o == e.obs[p]  cur == Current(tv, dv[p]) IN
        \* every file named by a yielded value exists where it should, with the content made from the current data
        /\ Report("Yielded", p, o.nvals = 1 /\ o.path_ok)
        /\ Report("Current_csv", p, o.files.csv = cur.csv)
@@ -41,15 +46,19 @@ Judge(e, dv, tv, pre) ==
        /\ Report("Changed", p, ChangedFlag(o.ch, o.wrote, o.launched))
        \* unchanged inputs: nothing rewritten, nothing launched
        /\ Report("NoRedo", p, (j >= 2 /\ e.touched.del = <<>> /\ e.touched.data = <<>> /\ ~e.touched.tpl
-                               /\ NoOverwrite(H.set)) => (Nothing(o.wrote, o.launched) /\ e.stray = 0))
+                               /\ NoOverwrite(H.set) /\ ~H.obj[p]) => (Nothing(o.wrote, o.launched) /\ e.stray = 0))
 TNext == /\ j <= Len(H.runs)
          /\ LET e == H.runs[j]
-                dv == [p \in 1..H.np |-> dataVer[p] + Count(e.touched.data, p)]
+                dv == [p \in 1..NP |-> [m \in 1..H.srcs[p] |-> dataVer[p][m] + Count(e.touched.data, <<p, m>>)]]
                 tv == tplVer + (IF e.touched.tpl THEN 1 ELSE 0)
-                pre == [p \in 1..H.np |-> [k \in KS |-> IF Count(e.touched.del, <<p, k>>) > 0 THEN Absent ELSE files[p][k]]]
+                pre == [p \in 1..NP |-> [csv |-> [m \in 1..H.srcs[p] |-> Gone(e, p, "csv", m, files[p].csv[m])],
+                                         tex |-> Gone(e, p, "tex", 0, files[p].tex),
+                                         pdf |-> Gone(e, p, "pdf", 0, files[p].pdf),
+                                         png |-> Gone(e, p, "png", 0, files[p].png)]]
             IN /\ Judge(e, dv, tv, pre)
                /\ dataVer' = dv /\ tplVer' = tv
-               /\ files' = [p \in 1..H.np |-> [k \in KS |-> e.obs[p].files[k]]]
+               /\ files' = [p \in 1..NP |-> [csv |-> e.obs[p].files.csv, tex |-> e.obs[p].files.tex,
+                                             pdf |-> e.obs[p].files.pdf, png |-> e.obs[p].files.png]]
          /\ j' = j + 1 /\ hi' = hi
 TSpec == TInit /\ [][TNext]_tvars
 EndPrinted == (j = Len(H.runs) + 1) => PrintT(<<"END", hi>>)
